@@ -17,7 +17,7 @@ Qed.
 (* ---- every protocol step is the table-level run of its trace ---- *)
 Lemma pstep_base : forall P e, base (fst (pstep P e)) = run (base P) (ptrace P e).
 Proof.
-  intros P e. unfold pstep. pose proof (run_flag_run (ptrace P e) (base P)) as H.
+  intros P e. unfold pstep, pstep_gen. pose proof (run_flag_run (ptrace P e) (base P)) as H.
   destruct (run_flag (base P) (ptrace P e)) as [S' d]. simpl in H. subst S'.
   destruct e as [t | i j s | i j s adv | i dead | ev]; try reflexivity.
   - simpl. destruct (getr (base P) i) as [ri|]; [|reflexivity].
@@ -40,7 +40,7 @@ Qed.
 Theorem stale_data_ignored_gen : forall P i j s adv,
   pget (i, j) (nseq P) <> s -> pstep P (PData i j s adv) = (P, false).
 Proof.
-  intros P i j s adv Hne. unfold pstep, ptrace.
+  intros P i j s adv Hne. unfold pstep, pstep_gen, ptrace.
   destruct (getr (base P) i) as [ri|]; [|destruct P; reflexivity].
   assert (E : (pget (i, j) (nseq P) =? s) = false) by lia. rewrite E, andb_false_r.
   destruct P; reflexivity.
@@ -50,7 +50,7 @@ Qed.
 Theorem foreign_data_ignored : forall P i j s adv,
   ~ In j (nbrs_of (base P) i) -> pstep P (PData i j s adv) = (P, false).
 Proof.
-  intros P i j s adv Hn. unfold pstep, ptrace. unfold nbrs_of in Hn.
+  intros P i j s adv Hn. unfold pstep, pstep_gen, ptrace. unfold nbrs_of in Hn.
   destruct (getr (base P) i) as [ri|]; [|destruct P; reflexivity].
   destruct (memN j (nbrs ri)) eqn:M; [apply memN_In in M; contradiction|].
   destruct P; reflexivity.
@@ -69,7 +69,7 @@ Proof.
     rewrite E. reflexivity. }
   split; [exact T|]. split.
   - rewrite pstep_base, T. reflexivity.
-  - unfold pstep. destruct (run_flag (base P) (ptrace P (PData i j s adv))). reflexivity.
+  - unfold pstep, pstep_gen. destruct (run_flag (base P) (ptrace P (PData i j s adv))). reflexivity.
 Qed.
 
 (* ---- Sync Interests: sequence numbers never go back, liveness is refreshed in every branch ---- *)
@@ -90,7 +90,7 @@ Theorem sync_refreshes_liveness : forall P i j s ri,
   getr (base P) i = Some ri -> i <> j ->
   pget (i, j) (seen (fst (pstep P (PSync i j s)))) = now P.
 Proof.
-  intros P i j s ri Gi Hij. unfold pstep.
+  intros P i j s ri Gi Hij. unfold pstep, pstep_gen.
   destruct (run_flag (base P) (ptrace P (PSync i j s))) as [S' d].
   rewrite Gi. assert (E : (i =? j) = false) by lia. rewrite E.
   destruct (memN j (nbrs ri)); cbn [fst seen]; rewrite pget_pset, pk_eqb_refl; reflexivity.
@@ -100,10 +100,10 @@ Theorem sync_seq_monotone : forall P i j s,
   pget (i, j) (nseq P) <= pget (i, j) (nseq (fst (pstep P (PSync i j s)))) \/
   ~ In j (nbrs_of (base P) i).
 Proof.
-  intros P i j s. unfold pstep, nbrs_of.
+  intros P i j s. unfold pstep, pstep_gen, nbrs_of.
   destruct (run_flag (base P) (ptrace P (PSync i j s))) as [S' d].
-  destruct (getr (base P) i) as [ri|]; [|left; simpl; lia].
-  destruct (i =? j); [left; simpl; lia|].
+  destruct (getr (base P) i) as [ri|]; [|left; cbn [fst]; lia].
+  destruct (i =? j); [left; cbn [fst]; lia|].
   destruct (memN j (nbrs ri)) eqn:M.
   - left. cbn [fst nseq]. destruct (s <=? pget (i, j) (nseq P)) eqn:E; [lia|].
     rewrite pget_pset, pk_eqb_refl. lia.
@@ -161,7 +161,7 @@ Proof.
   assert (S1 : pget (i, j) (seen P1) = now P) by (apply (sync_refreshes_liveness P i j s ri Gi Hij)).
   assert (B2 : base P2 = base P) by (unfold P2; rewrite pstep_base; simpl; exact B1).
   assert (S2 : seen P2 = seen P1 /\ now P2 = t).
-  { unfold P2, pstep. simpl. split; reflexivity. }
+  { unfold P2, pstep, pstep_gen. simpl. split; reflexivity. }
   destruct S2 as [S2 N2].
   apply (live_neighbour_survives_sweep P2 i j dead ri); rewrite ?B2; try assumption.
   rewrite S2, S1, N2. exact Ht.
@@ -185,3 +185,103 @@ Proof.
   intros P n evs Hok Hs Hn Hr. rewrite prun_base.
   apply (self_stabilises_converged (base P) n (ptrace_all P evs)); assumption.
 Qed.
+
+(* ------------------------------------------------------------------------------------------ *)
+(* the sender side: a router's own sequence number, restarts                                  *)
+(* ------------------------------------------------------------------------------------------ *)
+Lemma sget_sset : forall l k k' v, sget k' (sset k v l) = if k' =? k then v else sget k' l.
+Proof.
+  intros l k k' v. unfold sset. simpl. destruct (k' =? k) eqn:E; [reflexivity|].
+  induction l as [|[k0 v0] l IH]; simpl; [reflexivity|].
+  destruct (k0 =? k) eqn:E0; simpl.
+  - destruct (k' =? k0) eqn:E1; [lia | exact IH].
+  - destruct (k' =? k0); [reflexivity | exact IH].
+Qed.
+
+(* NewRouter: the initial sequence number is the clock divided by the unit *)
+Theorem router_up_seq : forall div P i, getr (base P) i = None ->
+  sget i (myseq (fst (pstep_gen div P (PBase (RouterUp i))))) = now P / div.
+Proof.
+  intros div P i G. unfold pstep_gen. simpl ptrace.
+  destruct (run_flag (base P) [RouterUp i]) as [S' d]. rewrite G. cbn [fst myseq].
+  rewrite sget_sset, N.eqb_refl. reflexivity.
+Qed.
+
+(* every reported table change bumps the router's sequence number by one; no report, no bump *)
+Theorem change_bumps_seq : forall div P e i, actor e = Some i ->
+  sget i (myseq (fst (pstep_gen div P e))) =
+  if snd (pstep_gen div P e) then sget i (myseq P) + 1 else sget i (myseq P).
+Proof.
+  intros div P e i Ha. unfold pstep_gen.
+  destruct (run_flag (base P) (ptrace P e)) as [S' d] eqn:R.
+  destruct e as [t | a b s | a b s adv | a dead | ev]; simpl in Ha; try discriminate.
+  - inversion Ha; subst a. simpl. destruct d; [rewrite sget_sset, N.eqb_refl|]; reflexivity.
+  - inversion Ha; subst a. simpl. destruct d; [rewrite sget_sset, N.eqb_refl|]; reflexivity.
+  - destruct ev as [a b | a b adv | a b adv | a b | a b | a | a]; simpl in Ha; try discriminate; inversion Ha; subst a.
+    + simpl. destruct d; [rewrite sget_sset, N.eqb_refl|]; reflexivity.
+    + simpl. destruct d; [rewrite sget_sset, N.eqb_refl|]; reflexivity.
+    + simpl. destruct d; [rewrite sget_sset, N.eqb_refl|]; reflexivity.
+    + simpl. destruct (memN b (nbrs_of (base P) i)); simpl; destruct d; try rewrite sget_sset, N.eqb_refl; reflexivity.
+Qed.
+
+(* what a restarted router needs: its new initial sequence number must exceed every number its previous incarnation
+   announced (started at clock t0, k table changes since), or its neighbours will not notice *)
+Definition restart_seq_fresh (div t0 k t1 : N) : Prop := t0 / div + k < t1 / div.
+
+(* a fresh sequence number is noticed: the neighbour records it, and (current_data_is_a_deliver) processes its Data *)
+Theorem fresh_restart_noticed : forall P i j s ri,
+  getr (base P) i = Some ri -> In j (nbrs ri) -> i <> j -> pget (i, j) (nseq P) < s ->
+  pget (i, j) (nseq (fst (pstep P (PSync i j s)))) = s.
+Proof.
+  intros P i j s ri Gi Hj Hij Hs. unfold pstep, pstep_gen.
+  destruct (run_flag (base P) (ptrace P (PSync i j s))) as [S' d].
+  rewrite Gi. assert (E : (i =? j) = false) by lia. rewrite E.
+  apply memN_In in Hj. rewrite Hj. cbn [fst nseq].
+  assert (E2 : (s <=? pget (i, j) (nseq P)) = false) by lia. rewrite E2.
+  rewrite pget_pset, pk_eqb_refl. reflexivity.
+Qed.
+
+(* a sequence number that is not larger is taken for "nothing changed": tables and the recorded number stay as they
+   are (only liveness is refreshed), and by stale_data_ignored no Data of a smaller number is ever processed *)
+Theorem stale_restart_unnoticed : forall P i j s ri,
+  getr (base P) i = Some ri -> In j (nbrs ri) -> s <= pget (i, j) (nseq P) ->
+  base (fst (pstep P (PSync i j s))) = base P /\ nseq (fst (pstep P (PSync i j s))) = nseq P.
+Proof.
+  intros P i j s ri Gi Hj Hs. split.
+  - rewrite pstep_base. unfold ptrace. rewrite Gi. apply memN_In in Hj. rewrite Hj. reflexivity.
+  - unfold pstep, pstep_gen. destruct (run_flag (base P) (ptrace P (PSync i j s))) as [S' d].
+    rewrite Gi. destruct (i =? j); [reflexivity|]. apply memN_In in Hj. rewrite Hj. cbn [fst nseq].
+    assert (E : (s <=? pget (i, j) (nseq P)) = true) by lia. rewrite E. reflexivity.
+Qed.
+
+(* milliseconds: fresh whenever fewer changes happened than milliseconds have passed *)
+Theorem restart_seq_ms_fresh : forall t0 k t1, k < t1 - t0 -> restart_seq_fresh 1 t0 k t1.
+Proof. intros t0 k t1 H. unfold restart_seq_fresh. rewrite !N.div_1_r. lia. Qed.
+
+(* seconds: refuted — 5 changes, restart 3 s later (well inside a 30 s dead interval) *)
+Theorem restart_seq_seconds_refuted : exists t0 k t1,
+  k < t1 - t0 /\ t1 - t0 < 30000 /\ ~ restart_seq_fresh 1000 t0 k t1.
+Proof. exists 0, 5, 3000. unfold restart_seq_fresh. vm_compute. repeat split; discriminate || (intro H; discriminate H). Qed.
+
+(* the same in the model: line 1 - 2 - 3; router 2 makes table changes, then restarts 3 s later with only router 1 as
+   neighbour; router 1 hears the new incarnation's Sync Interest and is offered its advertisement Data.
+   With millisecond sequence numbers router 1 drops its route to 3; with seconds it keeps it for ever. *)
+Definition honest_sync (div : N) (P : pstate) (i j : node) : pstate :=
+  fst (pstep_gen div P (PSync i j (sget j (myseq P)))).
+Definition honest_data (div : N) (P : pstate) (i j : node) : pstate :=
+  fst (pstep_gen div P (PData i j (sget j (myseq P))
+                              (match getr (base P) j with Some r => advert (rrib r) | None => [] end))).
+
+Definition ex_restart (div : N) : list (node * (N * node)) * N * N :=
+  let P0 := prun_gen div pinit
+              [PClock 100000; PBase (RouterUp 1); PBase (RouterUp 2); PBase (RouterUp 3);
+               PBase (NbrUp 1 2); PBase (NbrUp 2 1); PBase (NbrUp 2 3); PBase (NbrUp 3 2);
+               PBase (Fetch 2 3); PBase (Fetch 2 1); PBase (Fetch 3 2);
+               PBase (NbrDead 2 3); PBase (NbrUp 2 3); PBase (Fetch 2 3);
+               PBase (NbrDead 2 3); PBase (NbrUp 2 3); PBase (Fetch 2 3)] in
+  let P1 := honest_data div (honest_sync div P0 1 2) 1 2 in             (* 1 knows 2's tables: route to 3 *)
+  let old := sget 2 (myseq P1) in
+  let P2 := prun_gen div P1 [PBase (RouterDown 2); PBase (RouterDown 3); PClock 103000;
+                             PBase (RouterUp 2); PBase (NbrUp 2 1)] in
+  let P3 := honest_data div (honest_sync div P2 1 2) 1 2 in
+  (match getr (base P3) 1 with Some r => rib_entries (rrib r) | None => [] end, old, sget 2 (myseq P3)).
